@@ -132,7 +132,7 @@ theorem insertInto_leftS (S : Schema) (G : List Node) : ∀ (frs : List Frame) (
     simp only [leftS, Frame.node, List.length_cons, List.cons_append, List.nil_append] at ih ⊢
     unfold insertInto
     rw [if_neg (by omega), if_neg (by simp only [Node.size_elem, fsize_append]; omega)]
-    simp only [Nat.add_sub_cancel, Nat.lt_add_left_iff_pos, Nat.zero_lt_succ, decide_true, beq_self_eq_true,
+    simp only [Nat.add_sub_cancel, Nat.zero_lt_succ, decide_true, beq_self_eq_true,
       Bool.and_self, Bool.true_or, if_true]
     rw [ih]
     simp
